@@ -128,6 +128,19 @@ def build():
     # a user type with its own MemoryEstimator under max_memory (C05: "what its MemoryEstimator reports")
     for fl in ["g", "a", "t"]:
         fns.append(mk(len(fns), fl, "lru", mem=MEMS[5], ret=5))
+    # ---- appended in round 2 of the seeded changes (indices above are referenced by corpus/sched.txt) ----
+    # adjacent integer arguments whose renderings read alike without the separator: (1, 2j) / (12, j)
+    for fl in ["g", "a"]:
+        fns.append(mk(len(fns), fl, "lru", sig=6))
+    # a unit-variant receiver followed by a unit-variant argument: A + BC / AB + C
+    for fl in ["g", "a"]:
+        fns.append(mk(len(fns), fl, "fifo", sig=7))
+    # parameter names that a generated local could capture (key, result, part, cache)
+    for fl in ["g", "t", "a"]:
+        fns.append(mk(len(fns), fl, "lru", sig=8))
+    # Result functions whose Ok leaves the body through an explicit `return` (C09)
+    for fl in ["g", "t", "a"]:
+        fns.append(mk(len(fns), fl, "lru", early=True, ret=2))
     return fns
 
 
@@ -169,8 +182,25 @@ SIG_PARAMS = {
     3: "",
     4: "a: u32, b: bool, c: char, d: Option<u32>",
     5: "(p, q): (u32, u32), c: u32",
+    6: "a: u32, b: u32",
+    7: "&self, r: Rest2, k: u32",
+    8: "key: u32, result: u32, part: u32, cache: u32",
 }
-SIG_X = {0: "k", 1: "a", 2: "k", 3: "0u32", 4: "a", 5: "c"}
+SIG_X = {0: "k", 1: "a", 2: "k", 3: "0u32", 4: "a", 5: "c", 6: "b", 7: "k", 8: "part"}
+# sig 6: x = 2j -> (1, 20 + j), x = 2j + 1 -> (12, j): "1" ++ "2j" = "12" ++ "j"
+SIG_ARGS = {0: "x", 1: "x, &format!(\"s{}\", x)", 2: "x / 2", 3: "", 4: "x, true, 'c', Some(x)", 5: "(x % 2, 7), x / 2",
+            6: "if x % 2 == 0 { 1 } else { 12 }, if x % 2 == 0 { 20 + x / 2 } else { x / 2 }",
+            7: "if x % 2 == 0 { Rest2::BC } else { Rest2::C }, x / 2",
+            8: "1, 2, x, 3"}
+SIG_KEY = {0: 'format!("{:?}", x)',
+           1: 'format!("{:?}|{:?}", x, format!("s{}", x).as_str())',
+           2: 'format!("{:?}|{:?}", recv(x), x / 2)',
+           3: "String::new()",
+           4: 'format!("{:?}|{:?}|{:?}|{:?}", x, true, \'c\', Some(x))',
+           5: 'format!("{:?}|{:?}", (x % 2, 7u32), x / 2)',
+           6: 'format!("{:?}|{:?}", if x % 2 == 0 { 1u32 } else { 12 }, if x % 2 == 0 { 20 + x / 2 } else { x / 2 })',
+           7: 'format!("{:?}|{:?}|{:?}", half(x), if x % 2 == 0 { Rest2::BC } else { Rest2::C }, x / 2)',
+           8: 'format!("{:?}|{:?}|{:?}|{:?}", 1u32, 2u32, x, 3u32)'}
 BODY = ["body_u64", "body_string", "body_res_u64", "body_res_string", "body_slow", "body_weighted"]
 
 
@@ -185,6 +215,15 @@ def emit(fns, out):
     o.append("pub static RECV: Recv = Recv { id: 7 };")
     o.append("pub static RECV2: Recv = Recv { id: 8 };")
     o.append("pub fn recv(x: u32) -> &'static Recv { if x % 2 == 0 { &RECV } else { &RECV2 } }")
+    o.append("#[derive(Debug, Clone, PartialEq)]")
+    o.append("pub enum Half { A, AB }")
+    o.append("#[derive(Debug, Clone, PartialEq)]")
+    o.append("pub enum Rest2 { BC, C }")
+    o.append("impl cachelito_core::DefaultCacheableKey for Half {}")
+    o.append("impl cachelito_core::DefaultCacheableKey for Rest2 {}")
+    o.append("pub static HALF_A: Half = Half::A;")
+    o.append("pub static HALF_AB: Half = Half::AB;")
+    o.append("pub fn half(x: u32) -> &'static Half { if x % 2 == 0 { &HALF_A } else { &HALF_AB } }")
     for f in fns:
         i = f["idx"]
         ret = RET[f["ret"]]
@@ -204,6 +243,8 @@ def emit(fns, out):
         fn = "pub %sfn f%d(%s) -> %s { %s }" % ("async " if is_async else "", i, SIG_PARAMS[f["sig"]], ret, body)
         if f["sig"] == 2:
             o.append("impl Recv {\n    %s\n    %s\n}" % (head, fn))
+        elif f["sig"] == 7:
+            o.append("impl Half {\n    %s\n    %s\n}" % (head, fn))
         else:
             o.append(head)
             o.append(fn)
@@ -212,8 +253,8 @@ def emit(fns, out):
     o.append("    match idx {")
     for f in fns:
         i = f["idx"]
-        args = {0: "x", 1: "x, &format!(\"s{}\", x)", 2: "x / 2", 3: "", 4: "x, true, 'c', Some(x)", 5: "(x % 2, 7), x / 2"}[f["sig"]]
-        callee = ("recv(x).f%d(%s)" if f["sig"] == 2 else "f%d(%s)") % (i, args)
+        args = SIG_ARGS[f["sig"]]
+        callee = ("recv(x).f%d(%s)" if f["sig"] == 2 else "half(x).f%d(%s)" if f["sig"] == 7 else "f%d(%s)") % (i, args)
         if f["flavour"] == "a":
             callee = "rt::block_on(%s)" % callee
         o.append("        %d => rt::Ret::from_val(&%s)," % (i, callee))
@@ -232,12 +273,7 @@ def emit(fns, out):
     o.append("    match idx {")
     for f in fns:
         i = f["idx"]
-        e = {0: 'format!("{:?}", x)',
-             1: 'format!("{:?}|{:?}", x, format!("s{}", x).as_str())',
-             2: 'format!("{:?}|{:?}", recv(x), x / 2)',
-             3: "String::new()",
-             4: 'format!("{:?}|{:?}|{:?}|{:?}", x, true, \'c\', Some(x))',
-             5: 'format!("{:?}|{:?}", (x % 2, 7u32), x / 2)'}[f["sig"]]
+        e = SIG_KEY[f["sig"]]
         o.append("        %d => %s," % (i, e))
     o.append("        _ => panic!(\"no such function\"),")
     o.append("    }")
